@@ -585,7 +585,7 @@ pub fn run_once(prog: &Program, hasher: &TableHasher, prefix: &[(u16, u16)], max
             let t1 = sut.clock().elapsed().as_millis() as i64;
             recs0.push(Rec { thread: -1, idx: i, op: t, vid: pvid, start: 0, end: 0, t0, t1, obs: Obs::Unit, completed: true });
         }
-        if let Op::Ins(..) = op {
+        if op.takes_vid() {
             pvid += 1;
         }
         // a successful prefix lookup extends the entry's idle deadline: recorded (as
